@@ -66,6 +66,15 @@ def run(chk, replay=None):
             cases.append(({'f0.cellml': W.model([], [W.C('c0', imp=('f1.cellml', 'c0'))]),
                            'f1.cellml': W.model([W.U('u0', kids=['u1']), W.U('u1', imp=('f2.cellml', 'u0'))], [W.C('c0', units=['u0'])]),
                            'f2.cellml': W.model([W.U('u0')])}, 'probe', None))
+            # corpus: a component that uses alias units (u2 = 1 u0 = 1 u1) imported from the file that also defines what they
+            # are built from (flattening recursed without end before fix 9c49b9b), here with the file importing from itself
+            cases.append(({'f0.cellml': W.model([W.U('u0', imp=('f1.cellml', 'u2')), W.U('u1')], [W.C('c0', imp=('f1.cellml', 'c0'))]),
+                           'f1.cellml': W.model([W.U('u0', kids=['u1']), W.U('u1'), W.U('u2', imp=('f1.cellml', 'u0'))],
+                                                [W.C('c0', kids=[W.C('c1', kids=[W.C('c2', units=['u2', 'u2'])], units=['second']), W.C('c3', imp=('f1.cellml', 'c2'))])])}, 'corpus', None))
+            # ... and without: the alias comes from a third file, the library defines the units it is built from itself
+            cases.append(({'f0.cellml': W.model([], [W.C('c0', imp=('f1.cellml', 'c0'))]),
+                           'f1.cellml': W.model([W.U('u0', imp=('f2.cellml', 'u0')), W.U('u1')], [W.C('c0', units=['u0', 'u1'])]),
+                           'f2.cellml': W.model([W.U('u0', kids=['u1']), W.U('u1')])}, 'corpus', None))
             small = list(itertools.chain(W.small_units_worlds(2, 2), W.small_comp_worlds(2, 2), W.small_units_worlds(3, 1), W.small_comp_worlds(3, 1)))
             if chk.tier == 'quick':
                 small = rng.sample(small, 500)
